@@ -48,9 +48,9 @@ theorem ro_hostOf : ReadsOnly urlKeys hostOf := by
 
 theorem ro_urlpartsOf (cfg : Cfg) (L : Lib) : ReadsOnly (pathKeys ++ urlKeys) (urlpartsOf cfg L) := by
   intro e e' h
-  have h1 := (ro_fullpathOf cfg L).mono (ks' := pathKeys ++ urlKeys) (by simp) e e' h
-  have h2 := ro_schemeOf.mono (ks' := pathKeys ++ urlKeys) (by simp) e e' h
-  have h3 := ro_hostOf.mono (ks' := pathKeys ++ urlKeys) (by simp) e e' h
+  have h1 := (ro_fullpathOf cfg L).mono (ks' := pathKeys ++ urlKeys) (fun k hk => by simp [hk]) e e' h
+  have h2 := ro_schemeOf.mono (ks' := pathKeys ++ urlKeys) (fun k hk => by simp [hk]) e e' h
+  have h3 := ro_hostOf.mono (ks' := pathKeys ++ urlKeys) (fun k hk => by simp [hk]) e e' h
   have h4 : e.str? cs!"QUERY_STRING" = e'.str? cs!"QUERY_STRING" := h kQS (by simp [urlKeys])
   have : urlpartsFrom L e = urlpartsFrom L e' := by
     funext fp; simp only [urlpartsFrom, h2, h3, h4]
@@ -127,9 +127,9 @@ theorem desc_ok (cfg : Cfg) (L : Lib) (p : Prop') : DescOK (desc cfg L p) := by
   case scriptName =>
     refine ⟨fun e e' h => by simp only [ro_scriptNameOf cfg e e' h], fun k hk => pk k ?_⟩
     simp at hk; rcases hk with rfl | rfl <;> decide
-  case fullpath => exact ⟨ro_fullpathOf cfg L, fun k hk => pk k (by simp [hk])⟩
-  case urlparts => exact ⟨ro_urlpartsOf cfg L, fun k hk => pk k (by simp at hk ⊢; tauto)⟩
-  case url => exact ⟨ro_urlOf cfg L, fun k hk => pk k (by simp at hk ⊢; tauto)⟩
+  case fullpath => exact ⟨ro_fullpathOf cfg L, fun k hk => pk k (by simp only [List.mem_append]; exact Or.inl (Or.inl hk))⟩
+  case urlparts => exact ⟨ro_urlpartsOf cfg L, fun k hk => pk k (by simp only [List.mem_append] at hk ⊢; exact Or.inl hk)⟩
+  case url => exact ⟨ro_urlOf cfg L, fun k hk => pk k (by simp only [List.mem_append] at hk ⊢; exact Or.inl hk)⟩
   case isJsonRequested =>
     exact ⟨fun e e' h => by simp only [ro_isJsonOf e e' h], fun k hk => pk k (by simp at hk; subst hk; decide)⟩
   case remoteRoute =>
@@ -163,10 +163,10 @@ theorem desc_ok (cfg : Cfg) (L : Lib) (p : Prop') : DescOK (desc cfg L p) := by
     · simp at hk; rcases hk with rfl | rfl <;> decide
   case params =>
     refine ⟨ro_needPost.mono (by simp), fun e e' h => ?_, fun sk ct e e' h => ?_, fun k hk => pk k ?_⟩
-    · have h2 : ∀ t, paramsFrom e t = paramsFrom e' t := fun t => (ro_paramsFrom t).mono (ks' := [kCT, kCL, kQS]) (by simp) e e' h
+    · have h2 : paramsFrom e = paramsFrom e' := funext fun t => (ro_paramsFrom t).mono (ks' := [kCT, kCL, kQS]) (by simp) e e' h
       simp only [postK0, h2]
     · have := (ro_postK cfg L sk ct).mono (ks' := [kCT, kCL, kQS]) (by simp) e e' h
-      have h2 : ∀ t, paramsFrom e t = paramsFrom e' t := fun t => (ro_paramsFrom t).mono (ks' := [kCT, kCL, kQS]) (by simp) e e' h
+      have h2 : paramsFrom e = paramsFrom e' := funext fun t => (ro_paramsFrom t).mono (ks' := [kCT, kCL, kQS]) (by simp) e e' h
       simp only at this
       simp only [this, h2]
     · simp at hk; rcases hk with rfl | rfl | rfl <;> decide
